@@ -105,6 +105,13 @@ def configs(tier):
         for edges in dags(2):
             for ext in (('pre', 0), ('pre', 1), ('async', 0), ('async', 1)):
                 out.append(dict(kind='profiles', profs=(p0, p1), edges=edges, ext=ext))
+    # saved state x time stamp of the storage x expiration: the state is the first source unless it
+    # has expired; without a valid time stamp the expiration cannot be checked (state is used)
+    for prof in [p for p in ALL_PROFILES if p[0] == 'ok' and p[1] in ('none', 'early') and p[2] != 'raise']:
+        for ts in ('ok', 'missing', 'bad-type', 'future'):
+            for exp in (None, 1e9, 10, 0):
+                out.append(dict(kind='profiles', profs=(prof, ('none', 'none', 'noop', True)),
+                                edges=(), ext=None, ts=ts, exp=exp))
     sel3 = SEL8 if tier == 'quick' else SEL20[:12]
     d3 = dags(3)
     for profs in itertools.product(sel3, repeat=3):
@@ -134,11 +141,26 @@ def configs(tier):
 
 # ------------------------------------------------------------------ profile runs
 
+def saved_expired(cfg):
+    """Is the saved state too old to be used? (docs/blocks.rst: expiration)"""
+    exp, ts = cfg.get('exp'), cfg.get('ts', 'ok')
+    if exp is None:
+        return False
+    if exp <= 0:
+        return True
+    if ts in ('missing', 'bad-type'):
+        return False        # no valid time stamp: the expiration cannot be checked
+    age = 1_000_000.0 - (999_000.0 if ts == 'ok' else 1_500_000.0)
+    return age > exp
+
+
 def ref_initialised(cfg, skipped_ext=False, mid_ok=False):
     """Which blocks get a valid output (ignoring fatal errors); closure over start-up events."""
     profs, edges = cfg['profs'], cfg['edges']
     init = []
     for (p, a, r, i) in profs:
+        if p == 'ok' and saved_expired(cfg):
+            p = 'none'
         aok = ASYNC_SPEC[a][3] if a != 'none' else False
         if aok is None:
             aok = mid_ok and p != 'ok'
@@ -162,7 +184,14 @@ def run_profiles(cfg, order, acc):
     res = {}
     with Sim() as sim:
         circuit = sim.circuit
-        storage = {'edzed-stop-time': 999_000.0}
+        ts_kind, pexp = cfg.get('ts', 'ok'), cfg.get('exp')
+        storage = {}
+        if ts_kind == 'ok':
+            storage['edzed-stop-time'] = 999_000.0      # 1000 s before the (virtual) restart
+        elif ts_kind == 'bad-type':
+            storage['edzed-stop-time'] = '999000'
+        elif ts_kind == 'future':
+            storage['edzed-stop-time'] = 1_500_000.0
         blocks = [None] * n
         for i in order:
             p, a, r, idf = profs[i]
@@ -171,6 +200,8 @@ def run_profiles(cfg, order, acc):
             kw = {}
             if p != 'none':
                 kw['persistent'] = True
+                if pexp is not None:
+                    kw['expiration'] = pexp
                 if p == 'raise':
                     bcfg['restore'] = ('raise', Fault('restore'))
             if a != 'none':
@@ -284,6 +315,11 @@ def judge_profiles(cfg, order, log, res, blocks):
     for i in range(n if not fatal else 0):
         name = f'b{i}'
         p, a, r, idf = profs[i]
+        if p == 'ok' and saved_expired(cfg):
+            p = 'expired'
+            if any(e[1] == name and e[2] == 'restore' for e in log):
+                viol.append(('expired-state-restored', f"{label}: {name}: restore called with an "
+                             f"expired saved state (ts {cfg.get('ts')}, expiration {cfg.get('exp')})"))
         mine = [(k, e) for k, e in enumerate(log) if e[1] == name]
         calls = {}
         for k, e in mine:
@@ -313,7 +349,7 @@ def judge_profiles(cfg, order, log, res, blocks):
             viol.append(('saved-state-not-used', f"{label}: {name}: restore not called"))
         if 'event' in calls:
             k0, e0 = calls['event'][0]
-            need = ['init_regular'] + (['restore'] if p != 'none' else [])
+            need = ['init_regular'] + (['restore'] if p in ('ok', 'raise') else [])
             for ph in need:
                 if ph not in calls or calls[ph][0][0] > k0:
                     viol.append(('event-before-sync-init',
@@ -551,7 +587,7 @@ def run_initasync(cfg, acc):
 
 
 def cfg_key(cfg):
-    return (cfg['profs'], cfg['edges'], cfg['ext'])
+    return (cfg['profs'], cfg['edges'], cfg['ext'], cfg.get('ts'), cfg.get('exp'))
 
 
 def run_config(cfg):
